@@ -30,14 +30,19 @@ Init0(f) ==
 NetMut == {<<"adjacency", 1>>, <<"adjacency", 2>>, <<"set_edge_list", 1>>, <<"set_edge_list", 2>>,
            <<"node_weights", 1>>, <<"node_weights", 2>>, <<"set_link_attribute", 1>>,
            <<"set_link_attribute", 2>>, <<"del_link_attribute", 0>>}
+\* the caller edits the very array it passed last time and hands it over again
+SameMut == {<<"adjacency~same", 1>>, <<"adjacency~same", 2>>, <<"node_weights~same", 1>>,
+            <<"node_weights~same", 2>>, <<"set_link_attribute~same", 1>>, <<"set_link_attribute~same", 2>>}
 RpMut == {<<"set_fixed_threshold", 1>>, <<"set_fixed_threshold", 2>>,
           <<"set_fixed_recurrence_rate", 1>>, <<"set_fixed_recurrence_rate", 2>>}
 Alphabet(f) ==
-  IF f \in {"network", "dirnetwork", "interacting"} THEN NetMut
+  IF f \in {"network", "dirnetwork"} THEN NetMut \cup SameMut
+  ELSE IF f = "interacting" THEN NetMut
   ELSE IF f = "visibility" THEN {m \in NetMut : m[1] \in {"node_weights", "set_link_attribute", "del_link_attribute"}}
   ELSE IF f = "geonetwork" THEN NetMut \cup {<<"set_node_weight_type", 0>>, <<"set_node_weight_type", 1>>,
                                              <<"set_node_weight_type", 2>>}
-  ELSE IF f = "resnetwork" THEN {<<"update_resistances", 1>>, <<"update_resistances", 2>>}
+  ELSE IF f = "resnetwork" THEN {<<"update_resistances", 1>>, <<"update_resistances", 2>>,
+                                 <<"update_resistances~same", 1>>, <<"update_resistances~same", 2>>}
   ELSE IF f \in {"rp", "rn"} THEN RpMut \cup {<<"set_fixed_threshold_std", 1>>, <<"set_fixed_threshold_std", 2>>,
                                               <<"set_fixed_local_recurrence_rate", 1>>,
                                               <<"set_fixed_local_recurrence_rate", 2>>,
@@ -52,12 +57,12 @@ Alphabet(f) ==
 
 Apply(f, a, m) ==
   LET name == m[1]  v == m[2] IN
-  IF name \in {"adjacency", "set_edge_list"} THEN [a EXCEPT !.A = v, !.LA = 0]     \* a new graph has no attributes
-  ELSE IF name = "node_weights" THEN [a EXCEPT !.W = v]
-  ELSE IF name = "set_link_attribute" THEN [a EXCEPT !.LA = v]
+  IF name \in {"adjacency", "set_edge_list", "adjacency~same"} THEN [a EXCEPT !.A = v, !.LA = 0]     \* a new graph has no attributes
+  ELSE IF name \in {"node_weights", "node_weights~same"} THEN [a EXCEPT !.W = v]
+  ELSE IF name \in {"set_link_attribute", "set_link_attribute~same"} THEN [a EXCEPT !.LA = v]
   ELSE IF name = "del_link_attribute" THEN [a EXCEPT !.LA = 0]
   ELSE IF name = "set_node_weight_type" THEN [a EXCEPT !.NWT = v, !.W = 0]         \* weights follow the type
-  ELSE IF name = "update_resistances" THEN [a EXCEPT !.R = v]
+  ELSE IF name \in {"update_resistances", "update_resistances~same"} THEN [a EXCEPT !.R = v]
   ELSE IF name = "set_fixed_threshold" THEN [a EXCEPT !.MODE = "threshold", !.P = v]
   ELSE IF name = "set_fixed_threshold_std" THEN [a EXCEPT !.MODE = "threshold_std", !.P = v]
   ELSE IF name = "set_fixed_recurrence_rate" THEN [a EXCEPT !.MODE = "recurrence_rate", !.P = v]
